@@ -123,6 +123,7 @@ type obs struct {
 	CancelTick  int64   `json:"cancel_tick"` // ticks made before the cancellation (-1: never cancelled)
 	Parked      bool    `json:"parked"`      // parked() was called before the cancellation
 	AtReturn    int64   `json:"at_return"`
+	After       int64   `json:"after"` // ticks begun after the cancellation had been carried out and before the return
 	Samples     []int64 `json:"samples"`
 	Settled     bool    `json:"settled"`
 	Running     bool    `json:"running"`
@@ -153,8 +154,8 @@ func worker(kind string, data json.RawMessage) any {
 	for i := 0; i < n; i++ {
 		o := runCase(&c)
 		m.Runs = append(m.Runs, o)
-		if !o.Returned {
-			break // a hang reproduced once is enough; the stuck evaluation may still be burning a processor
+		if o.Returned && i+1 < n && len(m.Runs) > 0 && !m.Runs[0].Returned {
+			break // it hung once and returned now: not a repeatable hang, no need to go on
 		}
 	}
 	return m
@@ -196,41 +197,43 @@ func runCase(c *caseData) (o obs) {
 			cancelAt.Store(time.Now().UnixNano())
 		}
 	}
+	// cancelled: the cancellation has been carried out (cancel() has returned, or a tick has seen the
+	// deadline pass). after: ticks that BEGAN after that. Counting from a flag rather than from tick
+	// numbers keeps the bound meaningful when a goroutine is descheduled in the middle of tick().
+	var cancelled atomic.Bool
+	var after atomic.Int64
 	tick := object.NewBuiltin("tick", func(_ context.Context, args ...object.Object) object.Object {
 		if dead.Load() {
 			select {} // the case is over: freeze stragglers so that they do not disturb later cases
 		}
+		late := cancelled.Load()
 		n := ticks.Add(1)
-		if c.Mode == "cancel" && sh.Kind == "tick" && n == c.K {
-			// the ticks begun by now: other goroutines may have gone on ticking since this one took
-			// its number
-			markCancel(ticks.Load())
-			cancel()
-		}
-		ct := cancelTick.Load()
-		if ct < 0 && ctx.Err() != nil {
-			// the number of ticks begun by now (not n-1: this goroutine may have been descheduled
-			// between taking its number and looking at the context, while others went on ticking)
-			markCancel(ticks.Load())
-			ct = cancelTick.Load()
-		}
 		if returned.Load() {
 			// a straggler after the return: keep counting, but do not burn a processor while the
 			// settle samples are taken
 			time.Sleep(200 * time.Microsecond)
 			return object.Nil
 		}
-		if ct >= 0 {
+		if late {
+			m := after.Add(1)
 			// cooperative between cancel and return: let the watcher goroutine run
 			runtime.Gosched()
-			d := time.Duration(n-ct) * 20 * time.Microsecond
-			if d < 20*time.Microsecond {
-				d = 20 * time.Microsecond
-			}
+			d := time.Duration(m) * 20 * time.Microsecond
 			if d > 2*time.Millisecond {
 				d = 2 * time.Millisecond
 			}
 			time.Sleep(d)
+			return object.Nil
+		}
+		if c.Mode == "cancel" && sh.Kind == "tick" && n == c.K {
+			markCancel(ticks.Load())
+			cancel()
+			cancelled.Store(true)
+			runtime.Gosched()
+		} else if ctx.Err() != nil {
+			markCancel(ticks.Load())
+			cancelled.Store(true)
+			runtime.Gosched()
 		}
 		return object.Nil
 	})
@@ -285,6 +288,7 @@ func runCase(c *caseData) (o obs) {
 			}
 			markCancel(ticks.Load())
 			cancel()
+			cancelled.Store(true)
 		}()
 	}
 
@@ -293,12 +297,16 @@ func runCase(c *caseData) (o obs) {
 	if hangsSeen.Load() >= 2 && c.Repeat <= 1 {
 		wd = watchdog / 4
 	}
+	if c.Repeat > 1 {
+		wd = 2 * watchdog // confirmation run, alone
+	}
 	select {
 	case r = <-done:
 		o.Returned = true
 	case <-time.After(wd):
 		hangsSeen.Add(1)
 		o.AtReturn = ticks.Load()
+		o.After = after.Load()
 		o.CancelTick = cancelTick.Load()
 		o.Parked = parkedFlag.Load()
 		o.WallMs = time.Since(t0).Milliseconds()
@@ -309,6 +317,7 @@ func runCase(c *caseData) (o obs) {
 		return
 	}
 	o.AtReturn = ticks.Load()
+	o.After = after.Load()
 	returned.Store(true)
 	tRet := time.Now()
 	if ctx.Err() != nil {
@@ -428,8 +437,8 @@ func judge(c *caseData, o *obs) []verdict {
 		vs = append(vs, verdict{"wrong-error:" + tag + ":" + sym, head + fmt.Sprintf("the context ended with %q after %d ticks (parked=%v) while the workload was still running; risor.Eval returned %s", o.CtxErr, o.CancelTick, o.Parked, got)})
 	}
 	bound := int64(tickBound * tickers(sh, c.Chain, c.Mid))
-	if o.CancelTick >= 0 && o.AtReturn-o.CancelTick > bound {
-		vs = append(vs, verdict{"too-many-ticks-after-cancel:" + c.shapeTag(), head + fmt.Sprintf("%d tick() calls happened between the cancellation (after tick %d) and the return of risor.Eval (bound %d); each of them yielded the processor; %d ms passed between the two, %d ms since the start", o.AtReturn-o.CancelTick, o.CancelTick, bound, o.ReturnMs, o.WallMs)})
+	if o.After > bound {
+		vs = append(vs, verdict{"too-many-ticks-after-cancel:" + c.shapeTag(), head + fmt.Sprintf("%d tick() calls began after the cancellation had been carried out (%d ticks before it) and before risor.Eval returned (bound %d); each of them yielded the processor; %d ms passed between the two, %d ms since the start", o.After, o.CancelTick, bound, o.ReturnMs, o.WallMs)})
 	}
 	if o.Running {
 		vs = append(vs, verdict{"runs-after-return:" + c.shapeTag() + ":" + c.nesting(), head + fmt.Sprintf("tick counter at the return of risor.Eval: %d; samples every %v afterwards: %v (it advanced in %d consecutive intervals)", o.AtReturn, settleStep, o.Samples, settleMax)})
@@ -645,7 +654,7 @@ func drive(d *mon.Driver, replay string) int {
 		c := byID[mc.ID]
 		d.Eval(1)
 		if res.Status != "done" || res.Panic != "" {
-			if res.Status == "timeout" && (res.Crash == nil || !res.Crash.Confirmed) {
+			if res.Status == "timeout" {
 				d.Inconclusive("worker watchdog in case " + c.key())
 				return
 			}
@@ -691,8 +700,8 @@ func drive(d *mon.Driver, replay string) int {
 			d.Event(fmt.Sprintf("spawn-depth-%d", len(c.Chain)), 1)
 		}
 		d.Event("mode-"+c.Mode, 1)
-		if o.CancelTick >= 0 && o.AtReturn-o.CancelTick > maxAfter {
-			maxAfter = o.AtReturn - o.CancelTick
+		if o.After > maxAfter {
+			maxAfter = o.After
 		}
 		if o.ReturnMs > maxReturnMs {
 			maxReturnMs = o.ReturnMs
@@ -702,6 +711,13 @@ func drive(d *mon.Driver, replay string) int {
 				"samples_after_return": o.Samples, "error": o.ErrText, "errors_is_ctx_err": o.ErrIs})
 		}
 		sampleN++
+		if !o.Returned && o.CancelTick < 0 && o.CtxErr == "" && !o.Parked {
+			// nothing happened at all (no tick, no parked(), context still alive): the process was
+			// starved, the cancellation instant was never reached
+			d.Event("stalled-before-cancellation", 1)
+			d.Inconclusive("the workload did not reach its cancellation instant within the watchdog: " + c.key())
+			return
+		}
 		vs := judge(c, o)
 		if len(vs) > 0 {
 			cd := cand{id: mc.ID, sigs: map[string]string{}}
@@ -764,6 +780,11 @@ func drive(d *mon.Driver, replay string) int {
 				}
 				c := *byID[cd.id]
 				c.Repeat = 3
+				for sig := range cd.sigs {
+					if strings.HasPrefix(sig, "no-return:") {
+						c.Repeat = 2
+					}
+				}
 				confirm = append(confirm, mon.NewCase(cd.id, "case", c))
 				want[cd.id] = cd
 				more = true
@@ -791,6 +812,11 @@ func drive(d *mon.Driver, replay string) int {
 		d.RunPool(confirm, mon.PoolOpts{BatchSize: 1, Parallel: 4, BatchTimeout: 5 * time.Minute, NoRetry: true}, func(mc mon.Case, res mon.Result) {
 			c := byID[mc.ID]
 			cd := want[mc.ID]
+			if res.Status == "timeout" {
+				// not even the watchdog inside the worker fired: the process got no processor time
+				d.Inconclusive("worker process stalled while re-running " + c.key())
+				return
+			}
 			if res.Status != "done" || res.Panic != "" {
 				d.Violation("crash:"+c.shapeTag(), "the worker process died while re-running\n"+c.Src+"\n"+crashText(res), c)
 				return
@@ -809,7 +835,11 @@ func drive(d *mon.Driver, replay string) int {
 			}
 			sort.Strings(sigs)
 			for _, sig := range sigs {
-				if seen[sig] > 0 {
+				ok := seen[sig] > 0
+				if strings.HasPrefix(sig, "no-return:") {
+					ok = seen[sig] == len(m.Runs) && len(m.Runs) >= 2 // a real hang is deterministic
+				}
+				if ok {
 					d.Event("confirmed", 1)
 					d.Violation(sig, fmt.Sprintf("%s\n(seen in the batch run and again in %d of %d runs alone)", cd.sigs[sig], seen[sig], len(m.Runs)), c)
 				} else {
